@@ -36,13 +36,15 @@ Qed.
 
 Lemma bal_if_set (t : bool) s a n b : bal_of (if t then set_seq s a n else s) b = bal_of s b.
 Proof. destruct t; reflexivity. Qed.
+Lemma bal_pre_apply c k s a n b : bal_of (pre_apply c k s a n) b = bal_of s b.
+Proof. unfold pre_apply. destruct (pre_nonce c k); reflexivity. Qed.
 
 (** a successful handler run, spelled out *)
 Lemma leaf_run_eth_form c w s a n g p v x s1 :
   leaf_run c w s (EthTx a n g p v x) = Some s1 ->
   x_intr x <= g /\
   let r := eth_exec s a g v x in
-  let s0 := if nonce_reset c then set_seq s a n else s in
+  let s0 := pre_apply c (x_kind x) s a n in
   let s1' := if r_evm_nonce r then set_seq s0 a (S (seq_of s0 a)) else s0 in
   let s2 := if post_nonce c (x_kind x) then set_seq s1' a (S n) else s1' in
   let s3 := if r_ok r then add_bal (add_bal s2 a (- v)) (w_sink w) v else s2 in
@@ -57,7 +59,7 @@ Lemma leaf_run_eth_ran c w s a n g p v x s1 :
   leaf_run c w s (EthTx a n g p v x) = Some s1 -> ran s1 = EthTx a n g p v x :: ran s /\ grants s1 = grants s.
 Proof.
   intro H. apply leaf_run_eth_form in H as [_ H]. cbv zeta in H. subst s1.
-  destruct (r_ok _), (r_evm_nonce _), (nonce_reset c), (post_nonce c _); split; reflexivity.
+  unfold pre_apply. destruct (r_ok _), (r_evm_nonce _), (pre_nonce c _), (post_nonce c _); split; reflexivity.
 Qed.
 
 (** the handler writes msg.nonce + 1 — when the write after the EVM invocation is there for this kind of message *)
@@ -69,7 +71,7 @@ Proof.
   intros Hp H b. apply leaf_run_eth_form in H as [_ H]. cbv zeta in H. subst s1. rewrite Hp.
   rewrite seq_of_add_ran, seq_of_add_fee, seq_of_add_bal.
   destruct (r_ok _); rewrite ?seq_of_add_bal, seq_of_set_seq; (destruct (Nat.eqb b a) eqn:E; [reflexivity|]);
-    destruct (r_evm_nonce _), (nonce_reset c); rewrite ?seq_of_set_seq, ?E; reflexivity.
+    unfold pre_apply; destruct (r_evm_nonce _), (pre_nonce c _); rewrite ?seq_of_set_seq, ?E; reflexivity.
 Qed.
 
 (** without it the sequence may end anywhere at or above msg.nonce (never below: needs the reset or the admission) *)
@@ -87,8 +89,8 @@ Proof.
   { unfold refund_of. apply Z.div_le_mono; [unfold WEI; lia|nia]. }
   rewrite bal_of_add_ran, bal_of_add_fee, bal_of_add_bal.
   destruct (Nat.eqb b (w_sink w)) eqn:E1; [apply Nat.eqb_eq in E1; contradiction|].
-  destruct (r_ok _); rewrite ?bal_of_add_bal, ?E1, !bal_if_set; destruct (Nat.eqb b a) eqn:E2;
-    try (apply Nat.eqb_eq in E2; subst b); rewrite ?bal_if_set, ?E1, ?Nat.eqb_refl; lia.
+  destruct (r_ok _); rewrite ?bal_of_add_bal, ?E1, !bal_if_set, ?bal_pre_apply; destruct (Nat.eqb b a) eqn:E2;
+    try (apply Nat.eqb_eq in E2; subst b); rewrite ?bal_if_set, ?bal_pre_apply, ?E1, ?Nat.eqb_refl; lia.
 Qed.
 
 (** ---------------------------------------------------------------- hypotheses about the outside world *)
@@ -751,7 +753,7 @@ Definition cfg_eth_keys_accepted : cfg :=
      g_prevent := true; g_authz := true; g_authz_exec := true; g_authz_rec := false; vb_on := true; sig_on := true; sig_accepts_eth := true; signer_recovered := true;
      fee_on := true; seq_on := true; e_vb := true; e_sig := true; e_acc := true; e_gas := true; fee_exact := true; e_seq := true;
      fee_floor := fun _ => true; refund_floor := fun _ => true;
-     nonce_reset := true; post_nonce_call := true; post_nonce_create := true;
+     pre_nonce_call := PreNext; pre_nonce_create := PreSame; post_nonce_call := true; post_nonce_create := true;
      wasm_signer := true; wasm_no_eth := true |}.
 
 Lemma refuted_if_eth_keys_sign_cosmos_txs :
@@ -774,7 +776,7 @@ Definition cfg_signer_from_field : cfg :=
      g_prevent := true; g_authz := true; g_authz_exec := true; g_authz_rec := false; vb_on := true; sig_on := true; sig_accepts_eth := false; signer_recovered := false;
      fee_on := true; seq_on := true; e_vb := true; e_sig := true; e_acc := true; e_gas := true; fee_exact := true; e_seq := true;
      fee_floor := fun _ => true; refund_floor := fun _ => true;
-     nonce_reset := true; post_nonce_call := true; post_nonce_create := true;
+     pre_nonce_call := PreNext; pre_nonce_create := PreSame; post_nonce_call := true; post_nonce_create := true;
      wasm_signer := true; wasm_no_eth := true |}.
 
 Lemma refuted_if_signers_read_from_field :
@@ -793,7 +795,7 @@ Definition cfg_wasm_signer_unchecked : cfg :=
      g_prevent := true; g_authz := true; g_authz_exec := true; g_authz_rec := false; vb_on := true; sig_on := true; sig_accepts_eth := false; signer_recovered := true;
      fee_on := true; seq_on := true; e_vb := true; e_sig := true; e_acc := true; e_gas := true; fee_exact := true; e_seq := true;
      fee_floor := fun _ => true; refund_floor := fun _ => true;
-     nonce_reset := true; post_nonce_call := true; post_nonce_create := true;
+     pre_nonce_call := PreNext; pre_nonce_create := PreSame; post_nonce_call := true; post_nonce_create := true;
      wasm_signer := false; wasm_no_eth := true |}.
 
 Lemma refuted_if_wasm_signer_unchecked :
@@ -812,7 +814,7 @@ Definition cfg_no_nonce_check : cfg :=
      g_prevent := true; g_authz := true; g_authz_exec := true; g_authz_rec := false; vb_on := true; sig_on := true; sig_accepts_eth := false; signer_recovered := true;
      fee_on := true; seq_on := true; e_vb := true; e_sig := true; e_acc := true; e_gas := true; fee_exact := true; e_seq := false;
      fee_floor := fun _ => true; refund_floor := fun _ => true;
-     nonce_reset := true; post_nonce_call := true; post_nonce_create := true;
+     pre_nonce_call := PreNext; pre_nonce_create := PreSame; post_nonce_call := true; post_nonce_create := true;
      wasm_signer := true; wasm_no_eth := true |}.
 
 Lemma refuted_if_nonce_decorator_dropped :
@@ -835,7 +837,7 @@ Definition cfg_fee_per_gas : cfg :=
      g_prevent := true; g_authz := true; g_authz_exec := true; g_authz_rec := false; vb_on := true; sig_on := true; sig_accepts_eth := false; signer_recovered := true;
      fee_on := true; seq_on := true; e_vb := true; e_sig := true; e_acc := true; e_gas := true; fee_exact := false; e_seq := true;
      fee_floor := fun _ => true; refund_floor := fun _ => true;
-     nonce_reset := true; post_nonce_call := true; post_nonce_create := true;
+     pre_nonce_call := PreNext; pre_nonce_create := PreSame; post_nonce_call := true; post_nonce_create := true;
      wasm_signer := true; wasm_no_eth := true |}.
 
 Lemma refuted_if_fee_priced_per_truncated_gas_price :
@@ -861,7 +863,7 @@ Definition cfg_access_fee_not_floored : cfg :=
      g_prevent := true; g_authz := true; g_authz_exec := true; g_authz_rec := false; vb_on := true; sig_on := true; sig_accepts_eth := false; signer_recovered := true;
      fee_on := true; seq_on := true; e_vb := true; e_sig := true; e_acc := true; e_gas := true; fee_exact := true; e_seq := true;
      fee_floor := fun ty => match ty with TAccess => false | _ => true end; refund_floor := fun _ => true;
-     nonce_reset := true; post_nonce_call := true; post_nonce_create := true;
+     pre_nonce_call := PreNext; pre_nonce_create := PreSame; post_nonce_call := true; post_nonce_create := true;
      wasm_signer := true; wasm_no_eth := true |}.
 
 Definition x_access_1wei : xinfo :=
@@ -881,13 +883,13 @@ Qed.
     creation carrying a value the sender can pay, or pay the gas prepayment at the base fee for, but not both (gas
     price below the base fee: the balance check prices the gas lower than the deduction does) is admitted, charged
     and INCLUDED with a VM error — evm.Create stopped at its balance check, before its own nonce increment, and the
-    reset to msg.nonce stands: the sequence is back where it was, and the very same signed bytes are admitted again *)
+    write of msg.nonce before evm.Create stands: the sequence is back where it was, and the very same signed bytes are admitted again *)
 Definition cfg_create_nonce_not_bumped : cfg :=
   {| nonevm_known := true; evm_route := RouteEVM; other_route := RouteReject; other_decodable := false;
      g_prevent := true; g_authz := true; g_authz_exec := true; g_authz_rec := false; vb_on := true; sig_on := true; sig_accepts_eth := false; signer_recovered := true;
      fee_on := true; seq_on := true; e_vb := true; e_sig := true; e_acc := true; e_gas := true; fee_exact := true; e_seq := true;
      fee_floor := fun _ => true; refund_floor := fun _ => true;
-     nonce_reset := true; post_nonce_call := true; post_nonce_create := false;
+     pre_nonce_call := PreNext; pre_nonce_create := PreSame; post_nonce_call := true; post_nonce_create := false;
      wasm_signer := true; wasm_no_eth := true |}.
 
 Definition x_create_for_free : xinfo := {| x_kind := XCreate; x_ty := TLegacy; x_raw := 0; x_cap := 0; x_intr := 53004; x_exec := 0; x_out := XStop |}.
